@@ -1016,6 +1016,9 @@ class Interp:
                     if kind == "repo":
                         return k(VFunc("bound", self_ref=obj, cls=owner, name=name, node=node), st)
                     return k(VFunc("bmeth", self_ref=obj, base=owner, name=name), st)
+                for c_ in self.mro(h.cls):
+                    if (c_, name) in cx.contracts:      # a method inherited from the compiled base class, given by contract
+                        return k(VFunc("bound", self_ref=obj, cls=c_, name=name, node=None), st)
                 if h.meta.get("open_fields"):
                     hk = h.meta["open_fields"](cx, obj, name, st)
                     if hk is not None:
